@@ -110,6 +110,16 @@ def run(ctx):
             cases.append({"src": "\n".join(pre + ["replace all %s with %s" % (body, " ".join(show2(i) for i in its))]), "texts": mb_texts})
             cases.append({"src": "\n".join(pre + ["find all %s" % body]), "texts": mb_texts})
             meta.append(its)
+    # the same text matched several times: a transform is run for THAT match - its number, its offsets - not once per distinct text
+    nth = "set nth to transform return '<' + matchNumber + ':' + match + '>' end"
+    where = "set where to transform return '' + matchLength + '#' + matchNumber end"
+    for body in ("at least 1 letter", "(at least 1 letter) = w", "'ab'", "any"):
+        for its in ([("transform", "nth")], [("transform", "nth"), ("str", "|"), ("transform", "where")], [("builtin", "matchNumber"), ("transform", "where"), ("builtin", "startOffset")]):
+            def show3(it):
+                return genprog.q(it[1]) if it[0] == "str" else it[1]
+            cases.append({"src": "\n".join([nth, where, "replace all %s with %s" % (body, " ".join(show3(i) for i in its))]), "texts": ["ab cd ab", "ab ab ab", "a a\na", "abab", "x"]})
+            cases.append({"src": "\n".join([nth, where, "find all %s" % body]), "texts": ["ab cd ab", "ab ab ab", "a a\na", "abab", "x"]})
+            meta.append(its)
     gres, dis, stats = corr_core.run_core(cases, shards=12, spec=False)
     report_core_disagreements(ctx, cases, dis, in_scope=in_scope_core, known=known_core)
     ev = 0
